@@ -585,7 +585,10 @@ Fixpoint dec_steps (n : nat) (l : list Z) : list (list Z) :=
 
 Definition frame (ob : list Z) : list Z := zlen ob :: ob.
 
-Fixpoint run_steps (ovf : bool) (t : ty) (s : mach) (top : ptr) (steps : list (list Z)) : list Z :=
+Definition arm (s : mach) (i k : Z) : mach := mkMach (m_mem s) (m_len s) (m_grow s) (if i =? k then 1 else 0).
+
+Fixpoint run_steps (ovf : bool) (t : ty) (s0 : mach) (top : ptr) (i k : Z) (steps : list (list Z)) : list Z :=
+  let s := arm s0 i k in
   match steps with
   | [] =>
       (* end of the exclusive borrow: ExclusiveTopDrop::drop asserts check_pointers *)
@@ -597,19 +600,19 @@ Fixpoint run_steps (ovf : bool) (t : ty) (s : mach) (top : ptr) (steps : list (l
           let bytes := ztake (m_len s) (m_mem s) in
           let sh := match parse ovf t bytes with Ok _ => [0] | o => out_tag o end in
           match get_ptr ovf t (m_mem s) 0 (m_len s) with
-          | Ok (top', _) => frame (sh ++ observe ovf t s (Some top')) ++ run_steps ovf t s top' rest
+          | Ok (top', _) => frame (sh ++ observe ovf t s (Some top')) ++ run_steps ovf t s top' (i + 1) k rest
           | o => frame (sh ++ out_tag o)
           end
       | _ =>
           match exec (length st + 8) ovf t s top [] st with
           | Ok (s', top', extra) =>
               match extra with
-              | -1 :: c :: _ => frame ([1; c] ++ observe ovf t s' (Some top')) ++ run_steps ovf t s' top' rest
-              | _ => frame ([0; zlen extra] ++ extra ++ observe ovf t s' (Some top')) ++ run_steps ovf t s' top' rest
+              | -1 :: c :: _ => frame ([1; c] ++ observe ovf t s' (Some top')) ++ run_steps ovf t s' top' (i + 1) k rest
+              | _ => frame ([0; zlen extra] ++ extra ++ observe ovf t s' (Some top')) ++ run_steps ovf t s' top' (i + 1) k rest
               end
           | Err c =>
-              if c =? -9 then frame [9] ++ run_steps ovf t s top rest
-              else frame ([1; c] ++ observe ovf t s (Some top)) ++ run_steps ovf t s top rest
+              if c =? -9 then frame [9] ++ run_steps ovf t s top (i + 1) k rest
+              else frame ([1; c] ++ observe ovf t s (Some top)) ++ run_steps ovf t s top (i + 1) k rest
           | Panic => frame [2] ++ [-98; 1]
           | Fault => [3]
           end
@@ -624,9 +627,9 @@ Definition run_ops (input0 : list Z) : list Z :=
       match dec_val (length r) r with
       | Some (v, nsteps :: r2) =>
           let bs := encode t v in
-          let s0 := mkMach (bs ++ zrepeat 0 MAX_PERMITTED_DATA_INCREASE) (zlen bs) 0 refuse in
+          let s0 := mkMach (bs ++ zrepeat 0 MAX_PERMITTED_DATA_INCREASE) (zlen bs) 0 0 in
           match get_ptr true t (m_mem s0) 0 (m_len s0) with
-          | Ok (top, _) => run_steps true t s0 top (dec_steps (Z.to_nat nsteps) r2)
+          | Ok (top, _) => run_steps true t s0 top 0 refuse (dec_steps (Z.to_nat nsteps) r2)
           | o => out_tag o
           end
       | _ => [-1]
